@@ -17,12 +17,12 @@ from __future__ import annotations
 import ast
 
 from ..cfg import DataFlow
-from ..model import AnalysisError, FuncInfo, bind_args, dotted, last_attr, norm_text, walk_no_nested
+from ..model import AnalysisError, bind_args, dotted, last_attr, norm_text, walk_no_nested
 from ..rules import shift_typestate as ts
 from ..rules.reductions import SumNorm
 from ..rules.shift_typestate import Spec, flag_layout
 from ..terms import FlowNormalizer, Normalizer, Poly
-from .c14 import DP, MEAS, _shift_rule_text, _stmt_of, center_of_mass_spec, dp_inputs, make_interp
+from .c14 import DP, MEAS, _shift_rule_text, _stmt_of, center_of_mass_spec, make_interp
 
 
 def _axis_ids(expr: ast.AST, limit_names: set[str]) -> set[int]:
